@@ -10,6 +10,9 @@ import (
 	"fmt"
 	"net"
 	"net/http"
+	"os"
+	"path/filepath"
+	"runtime/pprof"
 	"strings"
 	"sync"
 	"sync/atomic"
@@ -403,11 +406,16 @@ func scenario(run *lib.Run, hb *lib.Heartbeat, r *lib.RNG, idx int) {
 	}
 	// ---- the real drain ----
 	expire := r.Chance(1, 5) && phaseCount["tunnel"] > 0
-	drainFor := 20 * time.Second
+	// The drain context of the expiring scenarios runs out after 400 ms. In the others it is
+	// cancelled by the harness itself, 20 s after it has closed the last client: the waits below
+	// (each bounded by its own timeout) must not eat into the time Shutdown is given.
+	var dctx context.Context
+	var dcancel context.CancelFunc
 	if expire {
-		drainFor = 400 * time.Millisecond
+		dctx, dcancel = context.WithTimeout(context.Background(), 400*time.Millisecond)
+	} else {
+		dctx, dcancel = context.WithCancel(context.Background())
 	}
-	dctx, dcancel := context.WithTimeout(context.Background(), drainFor)
 	defer dcancel()
 	shutDone := make(chan error, 1)
 	go func() { shutDone <- p.Shutdown(dctx) }()
@@ -535,6 +543,8 @@ func scenario(run *lib.Run, hb *lib.Heartbeat, r *lib.RNG, idx int) {
 				c.st.Close()
 			}
 		}
+		drainTimer := time.AfterFunc(20*time.Second, dcancel)
+		defer drainTimer.Stop()
 	}
 	// ---- Shutdown's return value ----
 	select {
@@ -550,6 +560,11 @@ func scenario(run *lib.Run, hb *lib.Heartbeat, r *lib.RNG, idx int) {
 				if !hb.Healthy(t0) {
 					run.Inconclusive("shutdown error, unhealthy heartbeat")
 				} else {
+					// the stacks of the goroutines that still hold a connection are the diagnosis
+					if f, ferr := os.Create(filepath.Join(run.Work, fmt.Sprintf("goroutines-case%d.txt", idx))); ferr == nil {
+						pprof.Lookup("goroutine").WriteTo(f, 2)
+						f.Close()
+					}
 					fail("shutdown-did-not-drain", fmt.Sprintf("every exchange finished and every client is gone, yet Shutdown returned %v (open connections by the harness count: %d)", e, cl.accepted.Load()-cl.closed.Load()), nil)
 				}
 			} else if d := cl.accepted.Load() - cl.closed.Load(); d != 0 {
